@@ -313,7 +313,7 @@ Qed.
 Lemma finish_conn_ok c s : okr (finish_conn c s).
 Proof.
   unfold finish_conn, bind, set_mod, modify, get, ret. cbv beta.
-  destruct (m_logger _); exact I.
+  destruct (m_logger _ && m_reg _); exact I.
 Qed.
 
 Lemma phase2_ok c s : RegInv s -> DynInv s -> length (mods s) = n -> m_reg (find_mod c (mods s)) = true ->
